@@ -620,6 +620,46 @@ func TestC08(t *testing.T) {
 	}
 	rec.Exhaustive(fmt.Sprintf("%d calls evaluated repeatedly in 6 forms on 5 inputs, each Code run twice", len(twice)), tcomplete)
 
+	// (X) regex shapes x subjects x every regex builtin: capture groups in
+	// repetitions and alternations (groups that keep the capture of an earlier
+	// iteration, start offsets that decrease with the group number), empty
+	// matches, anchors, multi-byte and ill-formed subjects
+	rePatterns := []string{"(?:(a)|(b))+", "(?:(?<key>[a-z]+)|(?<num>[0-9]+)|,)+", "((a)|(b))+", "(?:(\\\\w+)(,)?)+", "(a)|(b)|(c)", "(a*)(b*)", "(a)?(b)?(c)?", "()()()", "(?:(x)|(y)|(z))*", "((((a))))", "(a(b(c)?)?)?", "(?<n>a)|(?<n2>b)+",
+		"", "^", "$", "^$", "\\\\b", "\\\\B", "a*", "a*?", "(a|ab)(c|bcd)(d*)", "(?i)(A)(b)?", "[^a]", ".", "(.)(.)?(.)?", "(\\\\p{L})+", "(é)|(e)", "(?s)(.)+", "(?m)^(a)?$", "(a)(?:b)(c)", "(?:a|(b))(?:c|(d))+", "(b)?(?:a|(b))+"}
+	reSubjects := []string{"", "a", "ba", "ab", "12,ab", "ab,12", "abcabc", "aaa", "xyz", "éa", "aé", "日本a", "a\\nb", "a,b;c", "cba", "bab", "abd", "abcd", " a ", "AB"}
+	reBuiltins := []string{"[match(%p; \"g\")]", "[match(%p)]", "test(%p)", "capture(%p)", "[capture(%p; \"g\")]", "[scan(%p)]", "sub(%p; \"<\\(.)>\")", "gsub(%p; \"-\")", "[splits(%p)]", "split(%p; null)", "gsub(%p; \"\\(.a? // \"x\")\")", "[match(%p; \"gi\") | .captures | length]", "sub(%p; \"\\(.key? // .n? // \"\")\"; \"g\")"}
+	xcomplete := true
+	xn := 0
+	for _, pat := range rePatterns {
+		for _, b := range reBuiltins {
+			xn++
+			if !rec.Mine(xn) {
+				continue
+			}
+			src := "[.[] | try (" + strings.ReplaceAll(b, "%p", "\""+pat+"\"") + ") catch \"e\"]"
+			in := make([]any, len(reSubjects)+2)
+			for i, sj := range reSubjects {
+				in[i] = strings.ReplaceAll(sj, "\\n", "\n")
+			}
+			in[len(reSubjects)], in[len(reSubjects)+1] = "a\xffb", "\xe3\x81a"
+			c := mkLib(src, in, nil)
+			rec.Eval()
+			rec.Journal("regex-shapes", c)
+			o := check(c)
+			if o.discard != "" {
+				rec.Discard(o.discard)
+				continue
+			}
+			rec.Class("regex-shapes/" + o.stage)
+			rec.NT("regex-shapes\x00" + src)
+			if o.msg != "" {
+				rec.Direct("regex-shapes", c, "%s", o.msg)
+				xcomplete = false
+			}
+		}
+	}
+	rec.Exhaustive(fmt.Sprintf("%d regex shapes x %d regex builtin forms on %d subjects", len(rePatterns), len(reBuiltins), len(reSubjects)+2), xcomplete)
+
 	// (W) wide and deep programs: one construct repeated n times in a single
 	// scope / nesting (tables that are sized by a first guess and grown later)
 	wide := wideForms()
